@@ -2,9 +2,11 @@
 package vos
 
 import (
+	"fmt"
 	"io/fs"
 	"os"
 	"path/filepath"
+	"strings"
 	"time"
 
 	"verif/vfs"
@@ -30,16 +32,16 @@ const (
 	O_SYNC   = os.O_SYNC
 	O_TRUNC  = os.O_TRUNC
 
-	ModeDir        = os.ModeDir
-	ModePerm       = os.ModePerm
-	ModeAppend     = os.ModeAppend
-	ModeExclusive  = os.ModeExclusive
-	ModeTemporary  = os.ModeTemporary
-	ModeSymlink    = os.ModeSymlink
-	ModeType       = os.ModeType
-	PathSeparator  = os.PathSeparator
+	ModeDir           = os.ModeDir
+	ModePerm          = os.ModePerm
+	ModeAppend        = os.ModeAppend
+	ModeExclusive     = os.ModeExclusive
+	ModeTemporary     = os.ModeTemporary
+	ModeSymlink       = os.ModeSymlink
+	ModeType          = os.ModeType
+	PathSeparator     = os.PathSeparator
 	PathListSeparator = os.PathListSeparator
-	DevNull        = os.DevNull
+	DevNull           = os.DevNull
 )
 
 var (
@@ -57,29 +59,29 @@ var (
 )
 
 var (
-	IsNotExist   = os.IsNotExist
-	IsExist      = os.IsExist
-	IsPermission = os.IsPermission
-	IsTimeout    = os.IsTimeout
-	Getenv       = os.Getenv
-	LookupEnv    = os.LookupEnv
-	Setenv       = os.Setenv
-	Unsetenv     = os.Unsetenv
-	Environ      = os.Environ
-	Getpid       = os.Getpid
-	Getuid       = os.Getuid
-	Getwd        = os.Getwd
-	Hostname     = os.Hostname
-	TempDir      = os.TempDir
-	UserHomeDir  = os.UserHomeDir
-	UserCacheDir = os.UserCacheDir
+	IsNotExist    = os.IsNotExist
+	IsExist       = os.IsExist
+	IsPermission  = os.IsPermission
+	IsTimeout     = os.IsTimeout
+	Getenv        = os.Getenv
+	LookupEnv     = os.LookupEnv
+	Setenv        = os.Setenv
+	Unsetenv      = os.Unsetenv
+	Environ       = os.Environ
+	Getpid        = os.Getpid
+	Getuid        = os.Getuid
+	Getwd         = os.Getwd
+	Hostname      = os.Hostname
+	TempDir       = os.TempDir
+	UserHomeDir   = os.UserHomeDir
+	UserCacheDir  = os.UserCacheDir
 	UserConfigDir = os.UserConfigDir
-	Exit         = os.Exit
-	Expand       = os.Expand
-	ExpandEnv    = os.ExpandEnv
-	SameFile     = os.SameFile
-	Executable   = os.Executable
-	FindProcess  = os.FindProcess
+	Exit          = os.Exit
+	Expand        = os.Expand
+	ExpandEnv     = os.ExpandEnv
+	SameFile      = os.SameFile
+	Executable    = os.Executable
+	FindProcess   = os.FindProcess
 )
 
 // File wraps *os.File.
@@ -122,19 +124,31 @@ func CreateTemp(dir, pattern string) (*File, error) {
 	if _, crash := vfs.Mut("createtemp", filepath.Join(d, pattern), "", 0); crash {
 		vfs.Die()
 	}
-	return wrap(os.CreateTemp(dir, pattern))
+	// os.CreateTemp with the random part replaced by the seam's counter (same O_EXCL retry loop)
+	prefix, suffix := pattern, ""
+	if i := strings.LastIndex(pattern, "*"); i >= 0 {
+		prefix, suffix = pattern[:i], pattern[i+1:]
+	}
+	for try := 0; ; try++ {
+		name := filepath.Join(d, prefix+fmt.Sprintf("%09d", 700000000+vfs.NextTemp())+suffix)
+		f, err := os.OpenFile(name, os.O_RDWR|os.O_CREATE|os.O_EXCL, 0o600)
+		if os.IsExist(err) && try < 10000 {
+			continue
+		}
+		return wrap(f, err)
+	}
 }
 
-func (f *File) Name() string                                 { return f.f.Name() }
-func (f *File) Read(p []byte) (int, error)                   { return f.f.Read(p) }
-func (f *File) ReadAt(p []byte, off int64) (int, error)      { return f.f.ReadAt(p, off) }
-func (f *File) Seek(off int64, whence int) (int64, error)    { return f.f.Seek(off, whence) }
-func (f *File) Stat() (FileInfo, error)                      { return f.f.Stat() }
-func (f *File) Fd() uintptr                                  { return f.f.Fd() }
-func (f *File) Readdir(n int) ([]FileInfo, error)            { return f.f.Readdir(n) }
-func (f *File) ReadDir(n int) ([]DirEntry, error)            { return f.f.ReadDir(n) }
-func (f *File) Readdirnames(n int) ([]string, error)         { return f.f.Readdirnames(n) }
-func (f *File) SetDeadline(t time.Time) error                { return f.f.SetDeadline(t) }
+func (f *File) Name() string                              { return f.f.Name() }
+func (f *File) Read(p []byte) (int, error)                { return f.f.Read(p) }
+func (f *File) ReadAt(p []byte, off int64) (int, error)   { return f.f.ReadAt(p, off) }
+func (f *File) Seek(off int64, whence int) (int64, error) { return f.f.Seek(off, whence) }
+func (f *File) Stat() (FileInfo, error)                   { return f.f.Stat() }
+func (f *File) Fd() uintptr                               { return f.f.Fd() }
+func (f *File) Readdir(n int) ([]FileInfo, error)         { return f.f.Readdir(n) }
+func (f *File) ReadDir(n int) ([]DirEntry, error)         { return f.f.ReadDir(n) }
+func (f *File) Readdirnames(n int) ([]string, error)      { return f.f.Readdirnames(n) }
+func (f *File) SetDeadline(t time.Time) error             { return f.f.SetDeadline(t) }
 
 func (f *File) Write(p []byte) (int, error) {
 	if n, crash := vfs.Mut("write", f.f.Name(), "", len(p)); crash {
@@ -195,9 +209,12 @@ func one(op, a, b string) {
 	}
 }
 
-func Rename(oldpath, newpath string) error { one("rename", oldpath, newpath); return os.Rename(oldpath, newpath) }
-func Remove(name string) error             { one("remove", name, ""); return os.Remove(name) }
-func RemoveAll(name string) error          { one("removeall", name, ""); return os.RemoveAll(name) }
+func Rename(oldpath, newpath string) error {
+	one("rename", oldpath, newpath)
+	return os.Rename(oldpath, newpath)
+}
+func Remove(name string) error    { one("remove", name, ""); return os.Remove(name) }
+func RemoveAll(name string) error { one("removeall", name, ""); return os.RemoveAll(name) }
 func Mkdir(name string, perm FileMode) error {
 	one("mkdir", name, "")
 	return os.Mkdir(name, perm)
@@ -207,8 +224,14 @@ func Chtimes(name string, a, m time.Time) error {
 	one("chtimes", name, "")
 	return os.Chtimes(name, a, m)
 }
-func Symlink(oldname, newname string) error { one("symlink", newname, oldname); return os.Symlink(oldname, newname) }
-func Link(oldname, newname string) error    { one("link", newname, oldname); return os.Link(oldname, newname) }
+func Symlink(oldname, newname string) error {
+	one("symlink", newname, oldname)
+	return os.Symlink(oldname, newname)
+}
+func Link(oldname, newname string) error {
+	one("link", newname, oldname)
+	return os.Link(oldname, newname)
+}
 func Truncate(name string, size int64) error {
 	one("truncate", name, "")
 	return os.Truncate(name, size)
@@ -250,11 +273,11 @@ func WriteFile(name string, data []byte, perm FileMode) error {
 	return err
 }
 
-func ReadFile(name string) ([]byte, error)   { vfs.Note("readfile", name); return os.ReadFile(name) }
+func ReadFile(name string) ([]byte, error)    { vfs.Note("readfile", name); return os.ReadFile(name) }
 func ReadDir(name string) ([]DirEntry, error) { vfs.Note("readdir", name); return os.ReadDir(name) }
-func Stat(name string) (FileInfo, error)     { vfs.Note("stat", name); return os.Stat(name) }
-func Lstat(name string) (FileInfo, error)    { vfs.Note("lstat", name); return os.Lstat(name) }
-func Readlink(name string) (string, error)   { return os.Readlink(name) }
+func Stat(name string) (FileInfo, error)      { vfs.Note("stat", name); return os.Stat(name) }
+func Lstat(name string) (FileInfo, error)     { vfs.Note("lstat", name); return os.Lstat(name) }
+func Readlink(name string) (string, error)    { return os.Readlink(name) }
 func MkdirTemp(dir, pattern string) (string, error) {
 	one("mkdirtemp", filepath.Join(dir, pattern), "")
 	return os.MkdirTemp(dir, pattern)
